@@ -75,6 +75,7 @@ pub struct Sim {
     pub pingreq_sent: u64,
     /// datagrams delivered to an address nobody holds / a crashed node
     pub lost: u64,
+    pub forget_timers_fired: u64,
 }
 
 impl Sim {
@@ -100,6 +101,7 @@ impl Sim {
             turnundead_sent: 0,
             pingreq_sent: 0,
             lost: 0,
+            forget_timers_fired: 0,
         }
     }
 
@@ -208,6 +210,9 @@ impl Sim {
             What::Fire { node, timer } => {
                 if self.nodes[node].crashed || self.nodes[node].node.poisoned {
                     return Ok(Some(None));
+                }
+                if matches!(timer, Timer::RemoveDown(_)) {
+                    self.forget_timers_fired += 1;
                 }
                 let rec = self.call(node, Op::Timer(timer), acc)?;
                 Ok(Some(Some((node, rec))))
